@@ -25,6 +25,16 @@ Theorem C14_unordered_can_deadlock :
 Proof. exact unordered_can_deadlock. Qed.
 Print Assumptions C14_unordered_can_deadlock.
 
+(* Known finding (keys deadlock:..channels..root-collect and ..root-run): the order in which gluon takes `Thread.context`
+   mutexes (collector: parent then child; can_share_values_with: own then the other thread's) is
+   NOT a single order, and the two programs deadlock. *)
+Theorem C14_context_lock_order_refuted :
+  well_ordered [] gluon_collector = true /\
+  well_ordered [] gluon_value_push = false /\
+  exists sched, deadlocked (Locks.run (Locks.init [gluon_collector; gluon_value_push]) sched) = true.
+Proof. exact context_lock_order_refuted. Qed.
+Print Assumptions C14_context_lock_order_refuted.
+
 (* Memoised module evaluation: under every schedule and for any number of requesters each body
    is evaluated at most once, all requesters see the same value, and that value is the one the
    unique evaluator computed — even if the body's result depended on who evaluates it. *)
